@@ -317,7 +317,8 @@ class SendEndMessage(FnCheck):
             return st.alloc('HeaderInformationBlock')
 
         def get_client(ex_, st, args, kwargs):
-            st.ghost['c:netloc'] = st.box(args[0])
+            a = list(args) + list(kwargs.values())
+            st.ghost['c:netloc'] = st.box(a[0]) if a else Val.none    # no argument = connection of NotifyTo
             return st.alloc('SoapClient')
 
         def post(ex_, st, args, kwargs):
@@ -328,7 +329,9 @@ class SendEndMessage(FnCheck):
         return {f'{SB}:SubscriptionBase.is_valid': Pure(is_valid, name='is_valid (C08.is_valid)'),
                 'sdc11073.xml_types.addressing_types:HeaderInformationBlock': Pure(hib, name='HeaderInformationBlock(addr_to=...)'),
                 f'{SB}:SubscriptionBase._get_soap_client': Pure(get_client, name='_get_soap_client(netloc)'),
+                '*._get_soap_client': Pure(get_client, name='_get_soap_client(netloc)'),
                 '*.post_message_to': Pure(post, name='post_message_to (ghost log, may raise)'),
+                '*.async_post_message_to': Pure(post, name='async_post_message_to (ghost log, may raise)'),
                 'sdc11073.xml_types.eventing_types:SubscriptionEnd': other('SubscriptionEnd'),
                 '*.add_reason': Pure(lambda e, s, a, k: NONE, name='add_reason'),
                 '*.mk_soap_message': other('message')}
@@ -351,6 +354,14 @@ class SendEndMessage(FnCheck):
         ex.oblige(st, 'not_valid_changes_nothing', z3.Implies(z3.Not(self.valid.e), z3.And(
             field(st, self.o, '_is_closed') == field(st0, self.o, '_is_closed'),
             field(st, self.o, 'notify_errors') == field(st0, self.o, 'notify_errors'))))
+
+
+@register
+class SendEndMessageAsync(SendEndMessage):
+    id = 'C08.send_end_message_async'
+    cls_async = True
+    target = f'{SA}:BicepsSubscriptionAsync.async_send_notification_end_message'
+    doc = 'asynchronous SubscriptionEnd: same obligations as C08.send_end_message (EndTo address AND EndTo connection)'
 
 
 class _UnknownSubscription(FnCheck):
